@@ -67,6 +67,30 @@ class _Meth:
         self.name = name
 
 
+class _OuterSignal(BaseException):
+    """Control flow (return / break / continue) of a with-body travelling through the frames of
+    the @contextmanager function that wraps it."""
+
+    def __init__(self, inner):
+        self.inner = inner
+
+
+class ExitStackV:
+    """contextlib.ExitStack: the context managers entered through it, released in reverse."""
+
+    def __init__(self):
+        self.entered = []
+
+
+class CtxGen:
+    """Call of a @contextmanager generator function, not started yet."""
+
+    def __init__(self, func, args, kwargs):
+        self.func = func
+        self.args = args
+        self.kwargs = kwargs
+
+
 class FS:
     def __init__(self, files: Optional[dict] = None):
         self.files: dict[str, list] = {k: [list(r) for r in v] for k, v in (files or {}).items()}
@@ -163,7 +187,100 @@ class FSInterp(ResultInterp):
         r.locks_held.append(v)
 
     # -- with: lock acquisition / release -----------------------------------------------------
+    def call_func(self, f, args, kwargs, node, self_obj=None):
+        if any(d.split(".")[-1] == "contextmanager" for d in f.decorators):
+            return CtxGen(BoundMethod(f, self_obj) if self_obj is not None else f, list(args), dict(kwargs))
+        return super().call_func(f, args, kwargs, node, self_obj=self_obj)
+
+    def ev_Yield(self, e):
+        stack = self.root.__dict__.setdefault("_ctx_stack", [])
+        if stack and stack[-1]["func"] == self.func.qual and not stack[-1]["used"]:
+            # the single yield of a @contextmanager function: the body of the with statement runs here
+            entry = stack[-1]
+            entry["used"] = True
+            val = self.eval(e.value) if e.value is not None else None
+            entry["body"](val)
+            return None
+        return super().ev_Yield(e)
+
+    def _run_ctxgen(self, g: "CtxGen", st: ast.With, idx: int):
+        """`with g as x: body`  ==  the generator function's statements with the with-body in place
+        of its yield; an exception / return / continue of the body unwinds through the generator's
+        own with/try statements (as contextlib re-raises it at the yield)."""
+        f = g.func.func if isinstance(g.func, BoundMethod) else g.func
+        outer = self
+
+        def body(val):
+            it = st.items[idx]
+            if it.optional_vars is not None:
+                outer.assign(it.optional_vars, val)
+            try:
+                outer._with_from(st, idx + 1)
+            except RaiseSignal:
+                raise
+            except Undecided:
+                raise
+            except Exception as ex:  # _Return / _Break / _Continue of the enclosing function
+                raise _OuterSignal(ex)
+
+        stack = self.root.__dict__.setdefault("_ctx_stack", [])
+        entry = {"func": f.qual, "used": False, "body": body}
+        stack.append(entry)
+        try:
+            Interp.call_func(self, f, g.args, g.kwargs, st, self_obj=g.func.self_obj if isinstance(g.func, BoundMethod) else None)
+        except _OuterSignal as sig:
+            raise sig.inner
+        finally:
+            stack.remove(entry)
+        if not entry["used"]:
+            raise Undecided(f"context manager {f.qual} did not yield")
+
+    def _with_from(self, st: ast.With, idx: int):
+        """Execute `with items[idx:]: body`."""
+        if idx >= len(st.items):
+            self.exec_block(st.body)
+            return
+        it = st.items[idx]
+        v = self.eval(it.context_expr)
+        if isinstance(v, CtxGen):
+            self._run_ctxgen(v, st, idx)
+            return
+        acquired = []
+        try:
+            if isinstance(v, LockV):
+                self._acquire(v, st, "acquire")
+                acquired.append(v)
+            elif isinstance(v, ExitStackV):
+                pass
+            elif isinstance(v, Obj) and v.cls.lookup("__enter__") is not None:
+                before = list(self.root.locks_held)
+                n_new = len(self.root.__dict__.setdefault("created_locks", []))
+                self.call_func(v.cls.lookup("__enter__"), [], {}, st, self_obj=v)
+                for lk in self.root.locks_held:
+                    if lk not in before:
+                        lk.name = v.attrs.get("_global_name", lk.name)
+                        acquired.append(lk)
+                if len(self.root.created_locks) > n_new:
+                    self.root.late_locks.append((v.attrs.get("_global_name", v.cls.name), st))
+            if it.optional_vars is not None:
+                self.assign(it.optional_vars, v)
+            self._with_from(st, idx + 1)
+        finally:
+            if isinstance(v, ExitStackV):
+                acquired = list(v.entered)
+                v.entered = []
+            for lk in reversed(acquired):
+                if lk in self.root.locks_held:
+                    self.root.locks_held.remove(lk)
+
     def exec_stmt(self, st):
+        if isinstance(st, ast.With):
+            self._tick()
+            self._with_from(st, 0)
+            return
+        return super().exec_stmt(st)
+
+    def _exec_stmt_old_with(self, st):
         if isinstance(st, ast.With):
             self._tick()
             acquired = []
@@ -207,7 +324,7 @@ class FSInterp(ResultInterp):
                 b = posixpath.basename(base.s)
                 return b[b.rindex(".") :] if "." in b[1:] else ""
             return _Meth(base, attr)
-        if isinstance(base, (FileH, CsvR, CsvW, LockV)):
+        if isinstance(base, (FileH, CsvR, CsvW, LockV, ExitStackV)):
             return _Meth(base, attr)
         if isinstance(base, Sym):
             n = base.name
@@ -289,6 +406,21 @@ class FSInterp(ResultInterp):
                 for r_ in args[0]:
                     self.meth(o, "writerow", [r_], {}, node)
                 return None
+        if isinstance(o, ExitStackV):
+            if name == "enter_context" and len(args) == 1:
+                cm = args[0]
+                if isinstance(cm, LockV):
+                    self._acquire(cm, node, "acquire")
+                    o.entered.append(cm)
+                    return cm
+                raise Undecided("ExitStack.enter_context of an unmodelled context manager")
+            if name == "close":
+                for lk in reversed(o.entered):
+                    if lk in self.root.locks_held:
+                        self.root.locks_held.remove(lk)
+                o.entered = []
+                return None
+            raise Undecided(f"ExitStack.{name}")
         if isinstance(o, LockV):
             if name == "acquire":
                 self._acquire(o, node, "raw-acquire")
@@ -390,6 +522,8 @@ class FSInterp(ResultInterp):
             return math.isinf(args[0])
         if name in ("numpy.isfinite", "math.isfinite") and args and isinstance(args[0], float):
             return math.isfinite(args[0])
+        if name == "contextlib.ExitStack" and not args and not kwargs:
+            return ExitStackV()
         if name in ("multiprocessing.Lock", "threading.Lock", "multiprocessing.RLock", "threading.RLock"):
             lk = LockV(f"local@{getattr(node, 'lineno', 0)}", name)
             self.root.__dict__.setdefault("created_locks", []).append((lk, self.func.qual, node))
